@@ -126,6 +126,13 @@ def mod_expr(self: "FcpV2Transformer", tree: "ref:LarkTree") -> "any":
     ensures_effects(implies(effect_count("call:FcpV2Transformer.__init__") == 1,
                             dyn_get(self.error_logger.sources, str(effect_arg("call:FcpV2Transformer.__init__", 0, 1)))
                             == to_dyn(effect_result("call:read_file", 0))))
+    # C11 (F25): of the logger's entries, only those under the module's own path (as written and resolved) are replaced by this
+    # function itself; in particular not the entry under the module's bare file name, which may be the key of another source
+    ensures_effects(implies(effect_count("call:FcpV2Transformer.__init__") == 1,
+                            forall("str", lambda k: implies(
+                                k != str(self.path / (".".join(tree.children).replace(".", "/") + ".fcp"))
+                                and k != str(effect_arg("call:FcpV2Transformer.__init__", 0, 1)),
+                                dyn_get(self.error_logger.sources, k) == dyn_get(old(self.error_logger.sources), k)))))
     # errors: a missing file, a syntax error in the module and an error returned by the nested transformer all give Err and leave the schema alone
     ensures_effects(implies(effect_count("raise:read_file") == 1, result.is_err()))
     ensures_effects(implies(effect_count("raise:lark.Lark().parse") == 1, result.is_err()))
